@@ -3,7 +3,7 @@ from __future__ import annotations
 
 import ast
 
-from ..astx import (un, chain, call_name, paths, params, walk_shallow, single_assignments, inline, names_read, enclosing,
+from ..astx import (reaching_assignment, un, chain, call_name, paths, params, walk_shallow, single_assignments, inline, names_read, enclosing,
                     inline_self_calls, private_helper_owners, seq)
 from ..core import rule, fixture_for, Unknown
 
@@ -220,7 +220,8 @@ def only_through_cache(ctx):
     """Every call site of a compile sink lies in a function reachable only through the guarded cache regions (CG)."""
     repo = ctx.repo
     n = 0
-    owners = {k: private_helper_owners(repo, set(v)) for k, v in SINK_CALLERS.items()}
+    # an accepted caller that a class inherits (a template method in the base class) is accepted where it is defined
+    owners = {k: private_helper_owners(repo, set(v) | {repo.defining_qual(x) for x in v if repo.has(x)}) for k, v in SINK_CALLERS.items()}
     for mname, qual, fn in repo.all_functions():
         for call in [c for c in walk_shallow(fn) if isinstance(c, ast.Call)]:
             cn = call_name(call)
@@ -328,6 +329,16 @@ def key_provenance(ctx):
             found += 1
             ctx.call_sites += 1
             key = inline(n.slice, defs)
+            if isinstance(key, ast.Name) and key.id not in defs:
+                # bound more than once (e.g. also in an earlier branch that returns): the assignment that reaches this use
+                stmt = n
+                while not isinstance(stmt, ast.stmt) and getattr(stmt, "_parent", None) is not None:
+                    stmt = stmt._parent
+                host = next((s_ for s_ in ast.walk(fn) if isinstance(s_, ast.stmt) and any(x is n for x in ast.walk(s_))
+                             and not any(isinstance(c_, ast.stmt) and any(x is n for x in ast.walk(c_)) for c_ in ast.iter_child_nodes(s_) if isinstance(c_, ast.stmt))), None)
+                reach = reaching_assignment(fn, host, key.id) if host is not None else None
+                if reach is not None:
+                    key = inline(reach, defs)
             ok, bad, recognised = _key_expr_ok(key)
             c = f"{q}#lookup{found}"
             if ok:
